@@ -26,7 +26,7 @@ pub fn file_pos(
     snap: &ServerSnapshot,
     doc: lsp_types::TextDocumentPositionParams,
 ) -> (FilePosition, Arc<LineIndex>) {
-    let vfs = snap.vfs.read().unwrap();
+    let vfs = &snap.vfs;
     let path = UrlExt::to_file_path(&doc.text_document.uri);
     let file_id = vfs.file_for_path(&path).unwrap();
     let line_index = snap.analysis.line_index(file_id);
@@ -39,7 +39,7 @@ pub fn file_range(
     doc: lsp_types::TextDocumentIdentifier,
     lsp_range: lsp_types::Range,
 ) -> (FileRange, Arc<LineIndex>) {
-    let vfs = snap.vfs.read().unwrap();
+    let vfs = &snap.vfs;
     let path = UrlExt::to_file_path(&doc.uri);
     let file_id = vfs.file_for_path(&path).unwrap();
     let line_index = snap.analysis.line_index(file_id);
@@ -51,7 +51,7 @@ pub fn file(
     snap: &ServerSnapshot,
     doc: lsp_types::TextDocumentIdentifier,
 ) -> (FileId, Arc<LineIndex>) {
-    let vfs = snap.vfs.read().unwrap();
+    let vfs = &snap.vfs;
     let path = UrlExt::to_file_path(&doc.uri);
     let file_id = vfs.file_for_path(&path).unwrap();
     let line_index = snap.analysis.line_index(file_id);
